@@ -49,6 +49,10 @@ func genC09(ctx *fw.Ctx) []fw.Case {
 		w := w
 		cases = append(cases, fw.Case{ID: fmt.Sprintf("struct/i%d", w), Run: func(r *fw.Rec) { c09Structured(r, w) }})
 	}
+	for _, rev := range []bool{false, true} {
+		rev := rev
+		cases = append(cases, fw.Case{ID: fmt.Sprintf("mixed-widths/reverse=%v", rev), Run: func(r *fw.Rec) { c09MixedWidths(r, rev) }})
+	}
 	return cases
 }
 
@@ -447,4 +451,43 @@ func c09Structured(r *fw.Rec, w uint64) {
 		l := lits[nprt/3]
 		r.Sample(map[string]interface{}{"width": w, "literal": l.spell, "kind": l.kind, "denotes": l.want.String()})
 	}
+}
+
+// c09MixedWidths puts the same literal text at several widths into one module
+// (in ascending or descending order of width): what a literal denotes depends
+// on the width of its type, not on where the same digits were seen before.
+func c09MixedWidths(r *fw.Rec, reverse bool) {
+	widths := []uint64{4, 7, 8, 9, 12, 16, 17, 32, 33, 64, 65, 128}
+	if reverse {
+		for i, j := 0, len(widths)-1; i < j; i, j = i+1, j-1 {
+			widths[i], widths[j] = widths[j], widths[i]
+		}
+	}
+	var lits []intLit
+	for _, hx := range []string{"F", "8", "7", "40", "7F", "80", "FF", "100", "FFF", "8000", "FFFF", "10000", "80000000", "FFFFFFFF", "8000000000000000", "FFFFFFFFFFFFFFFF"} {
+		u, _ := new(big.Int).SetString(hx, 16)
+		for _, w := range widths {
+			if len(hx) > hexDigits(w) || u.Cmp(pow2(w)) >= 0 {
+				continue
+			}
+			kind := "s0x-fullwidth-positive" // LLVM is not consulted (see spellings)
+			if u.Bit(int(w)-1) == 1 {
+				kind = "s0x-fullwidth"
+			}
+			lits = append(lits, intLit{w: w, spell: "s0x" + hx, want: signedw(u, w), exact: true, kind: kind})
+			lits = append(lits, intLit{w: w, spell: "u0x" + hx, want: u, exact: true, kind: "u0x-upper"})
+			lits = append(lits, intLit{w: w, spell: u.String(), want: u, exact: true, kind: "dec-unsigned"})
+		}
+	}
+	for _, dec := range []string{"-1", "-8", "-128", "-32768", "-2147483648", "-9223372036854775808"} {
+		v, _ := new(big.Int).SetString(dec, 10)
+		for _, w := range widths {
+			if v.Cmp(new(big.Int).Neg(pow2(w-1))) < 0 {
+				continue
+			}
+			lits = append(lits, intLit{w: w, spell: dec, want: v, exact: true, kind: "dec-signed"})
+		}
+	}
+	judgeLits(r, fmt.Sprintf("mixed-widths-reverse=%v", reverse), lits)
+	r.NontrivialN("mixed-widths", len(lits))
 }
